@@ -17,3 +17,6 @@ func VerifUnwrap(m api.Module) *wasm.ModuleInstance {
 	}
 	return nil
 }
+
+// VerifStore returns the store of a runtime.
+func VerifStore(r Runtime) *wasm.Store { return r.(*runtime).store }
